@@ -50,9 +50,11 @@ typename strategy<T>::offspring_t base<T>::run(
   Expects(0.0 <= p_cross && p_cross <= 1.0);
   Expects(0.0 <= p_mutation && p_mutation <= 1.0);
   Expects(brood_recombination);
-  Expects(parent.size() >= 2);
+  Expects(!parent.empty());
 
-  const auto r1(parent[0]), r2(parent[1]);
+  // With `tournament_size == 1` the selection phase returns just one
+  // individual: it plays both roles.
+  const auto r1(parent[0]), r2(parent.size() > 1 ? parent[1] : parent[0]);
 
   if (random::boolean(p_cross))
   {
@@ -117,10 +119,14 @@ template<class T>
 typename strategy<T>::offspring_t de<T>::run(
   const typename strategy<T>::parents_t &parent)
 {
-  Expects(parent.size() >= 2);
+  Expects(!parent.empty());
 
   const auto &pop(this->pop_);
   const auto &env(pop.get_problem().env);
+
+  // With `tournament_size == 1` the selection phase returns just one
+  // individual: it plays both roles.
+  const auto second(parent.size() > 1 ? parent[1] : parent[0]);
 
   assert(0.0 < env.p_cross);
   assert(env.p_cross <= 1.0);
@@ -129,6 +135,6 @@ typename strategy<T>::offspring_t de<T>::run(
   const auto b(pickup(pop, parent[0]));
 
   return {pop[parent[0]].crossover(env.p_cross, env.de.weight,
-                                   pop[parent[1]], pop[a], pop[b])};
+                                   pop[second], pop[a], pop[b])};
 }
 #endif  // include guard
